@@ -1226,8 +1226,8 @@ func TestC13(t *testing.T) {
 	}
 	col.Bound("operations.rule-file", len(targetsStatic))
 	col.Bound("operations.root", len(rootStatic))
-	col.Rule("breadth-first search over all sequences of metadata edits (rule files: %d fixed operations + up to 7 state-derived ReorderRules lists; roots: %d operations; menus include reserved-prefix/allow-rule/empty names, unknown and duplicated principal ids, thresholds -1..3, nil and unsupported principal types, invalid hook stages/environments) on 4 subjects (v01/v02 rule file, v01/v02 root) from 2 start states each (fresh; seeded with two principals and one rule/role), to the stated depth. Every transition re-executes the whole path on a fresh object with the real mutators; states are deduplicated per shard on the JSON the real serializer emits. A class is (subject, mutator, argument shape, accepted or the refusal reason).", len(targetsStatic), len(rootStatic))
-	col.Assume("the invariant is read from the emitted JSON with harness-local types; the allow rule itself is exempt from the 'listed principals can meet the threshold' clause (it lists none by design); GetHooks answering ErrNoHooksDefined equals answering zero hooks (policy.State.preprocess treats them alike); GitHub-app edits are outside the property's quantifier and not explored; uniqueness of rule names across rule files (repository API) is not explored here")
+	col.Rule("breadth-first search over all sequences of metadata edits (rule files: %d fixed operations + up to 7 state-derived ReorderRules lists; roots: %d operations; menus include reserved-prefix/allow-rule/empty names, unknown and duplicated principal ids, thresholds -1..3, nil and unsupported principal types, invalid hook stages/environments) on 4 subjects (v01/v02 rule file, v01/v02 root) from 2 start states each (fresh; seeded with two principals and one rule/role), to the stated depth. Every transition re-executes the whole path on a fresh object with the real mutators; states are deduplicated per shard on the JSON the real serializer emits. A class is (subject, mutator, argument shape, accepted or the refusal reason). Lane G: the same search over %d repository-API operations on real git repositories (state = copy of the repository directory, dedup on the staged rule files read with git plumbing).", len(targetsStatic), len(rootStatic), len(apiOps()))
+	col.Assume("the invariant is read from the emitted JSON with harness-local types; the allow rule itself is exempt from the 'listed principals can meet the threshold' clause (it lists none by design); GetHooks answering ErrNoHooksDefined equals answering zero hooks (policy.State.preprocess treats them alike); GitHub-app edits are outside the property's quantifier and not explored; uniqueness of rule names is required only across rule files through the repository API (lane G), not of the raw mutators inside one rule file")
 
 	if rf := evid.ReplayFile(); rf != "" {
 		runReplay(t, col, rf)
@@ -1499,7 +1499,8 @@ func apiOps() []*apiOp {
 	return out
 }
 
-var apiStarts = []string{"root-only", "two-files", "two-files-v01"}
+// quick tier: the first two starts; thorough: all
+var apiStarts = []string{"root-only", "two-files-r1", "two-files", "two-files-v01"}
 
 // apiStart publishes the start policy into a fresh real repository.
 func apiStart(t *testing.T, start string) (string, error) {
@@ -1512,6 +1513,10 @@ func apiStart(t *testing.T, start string) (string, error) {
 	case "two-files":
 		tg := world.Targets(1, []tuf.Principal{t0.TUFKey()}, []world.RuleSpec{{Name: "deleg", Patterns: []string{"git:refs/heads/*"}, Principals: []string{t0.KeyID}, Threshold: 1}})
 		dg := world.Targets(1, []tuf.Principal{t0.TUFKey()}, nil)
+		tenv, denv = world.Envelope(tg, t0), world.Envelope(dg, t0)
+	case "two-files-r1":
+		tg := world.Targets(1, []tuf.Principal{t0.TUFKey()}, []world.RuleSpec{{Name: "deleg", Patterns: []string{"git:refs/heads/*"}, Principals: []string{t0.KeyID}, Threshold: 1}})
+		dg := world.Targets(1, []tuf.Principal{t0.TUFKey()}, []world.RuleSpec{{Name: "r1", Patterns: []string{"file:a"}, Principals: []string{t0.KeyID}, Threshold: 1}})
 		tenv, denv = world.Envelope(tg, t0), world.Envelope(dg, t0)
 	case "two-files-v01":
 		tg := tufv01.NewTargetsMetadata()
@@ -1680,6 +1685,15 @@ func apiStep(dir string, p *apiOp, tipBefore, kBefore string) (vs []verdict, k, 
 	return vs, kAfter, tipAfter, nil, opErr
 }
 
+func panicked(vs []verdict) bool {
+	for _, v := range vs {
+		if strings.HasPrefix(v.sig, "C13:api-panics:") {
+			return true
+		}
+	}
+	return false
+}
+
 func apiDepth(thorough bool) int {
 	if v := os.Getenv("VERIF_C13_API_DEPTH"); v != "" {
 		if n, err := strconv.Atoi(v); err == nil && n > 0 {
@@ -1689,7 +1703,7 @@ func apiDepth(thorough bool) int {
 	if thorough {
 		return 3
 	}
-	return 2
+	return 1
 }
 
 func searchAPI(t *testing.T, col *evid.Collector, thorough bool, item *int) bool {
@@ -1710,7 +1724,12 @@ func searchAPI(t *testing.T, col *evid.Collector, thorough bool, item *int) bool
 		dir, tip, k string
 		path        []string
 	}
-	for _, start := range apiStarts {
+	starts := apiStarts
+	if !thorough {
+		starts = apiStarts[:2]
+	}
+	col.Bound("starts.api", len(starts))
+	for _, start := range starts {
 		// only build the start repository when this shard owns one of its
 		// first operations (or counts the start state)
 		owns := shard == 0
@@ -1772,12 +1791,17 @@ func searchAPI(t *testing.T, col *evid.Collector, thorough bool, item *int) bool
 					col.Inc("evaluations")
 					col.Inc("traces_validated_against_impl")
 					col.Inc("api_transitions")
-					if opErr != nil {
+					outcome := errClass(opErr)
+					switch {
+					case panicked(vs):
+						col.Inc("api_panicked")
+						outcome = "panicked"
+					case opErr != nil:
 						col.Inc("api_refused")
-					} else {
+					default:
 						col.Inc("api_accepted")
 					}
-					col.Class("api.%s[%s]/%s", p.Mut, p.Tag, errClass(opErr))
+					col.Class("api.%s[%s]/%s", p.Mut, p.Tag, outcome)
 					for _, v := range vs {
 						col.Violation(v.sig, fmt.Sprintf("[api from %s] %s", start, v.what), replay{Subject: "api", Start: start, Ops: path})
 					}
